@@ -87,7 +87,7 @@ def _eq_fields(prog: Program, ci: ClassInfo) -> Optional[Set[str]]:
     if ci.is_dataclass():
         decos = " ".join(ci.decorator_texts())
         if "eq=False" not in decos:
-            return {n for n, _ in ci.dataclass_fields()}
+            return set(ci.dataclass_compared_fields())
     return None
 
 
@@ -608,6 +608,11 @@ def _check_state(rep: Report, m) -> None:
     rc = rep.rule("C17.c", "no state leaks across assets or runs: caches, class-level and module-level containers, the per-asset engine, shared method plugins", floor=12)
     # (1) functools caches
     check_caches(rep, rc, m)
+    # (1b) a per-asset / per-run reset must bind the attribute that is read (private names are mangled per class)
+    from ..engine import check_private_shadowing
+
+    if check_private_shadowing(rep, rc) == 0:
+        rep.ok(rc, "no private attribute name is used by both a class and one of its package base classes", "resets bind the attribute the readers use")
     # (2) class-level mutable containers
     for ci in prog.classes.values():
         if ci.is_enum() or ci.is_namedtuple():
